@@ -290,6 +290,7 @@ type sim struct {
 	stop      bool
 	closedAll bool
 	rejected  int
+	pub       int32
 	hintOp    int
 	hintN     uint64
 }
@@ -376,7 +377,11 @@ func (s *sim) call(name string, group int, fn func()) (po *callRec) {
 			}
 			po.done = true
 		}()
+		kern.HBAcquire(&s.pub) // the application publishes the constructed object properly
 		fn()
+		if name == "New" {
+			kern.HBRelease(&s.pub)
+		}
 	})
 	return po
 }
@@ -883,32 +888,48 @@ func (s *sim) exec(o Op) {
 //
 //go:norace
 func (s *sim) configCheck() {
-	var got *pb.ApiConfig
-	c := s.call("GCPConfig", 0, func() { got = s.gme.GCPConfig() })
+	// everything that touches the returned message runs on the calling task (the
+	// scheduler goroutine must not read what a task produced with instrumented code)
+	verdict := ""
+	c := s.call("GCPConfig", 0, func() {
+		got := s.gme.GCPConfig()
+		if !proto.Equal(got, s.cfgSnap) {
+			verdict = "not-equal"
+			return
+		}
+		got.ChannelPool.MaxSize = 99
+		got.Method = nil
+		if again := s.gme.GCPConfig(); !proto.Equal(again, s.cfgSnap) {
+			verdict = "aliased-returned"
+			return
+		}
+	})
 	s.k.Quiesce()
 	if s.panicked(c, "GCPConfig") {
 		return
 	}
 	s.res.Count("op:gcpconfig", 1)
-	if !proto.Equal(got, s.cfgSnap) {
-		s.vio("C17", "gcpconfig-not-equal", "", fmt.Sprintf("GCPConfig() = %v, want %v", got, s.cfgSnap))
+	switch verdict {
+	case "not-equal":
+		s.vio("C17", "gcpconfig-not-equal", "", "GCPConfig() is not equal to the configuration the object was created with")
 		return
-	}
-	got.ChannelPool.MaxSize = 99
-	got.Method = nil
-	var again *pb.ApiConfig
-	s.call("GCPConfig", 0, func() { again = s.gme.GCPConfig() })
-	s.k.Quiesce()
-	if !proto.Equal(again, s.cfgSnap) {
+	case "aliased-returned":
 		s.vio("C17", "gcpconfig-aliased", "returned", "mutating the value returned by GCPConfig() changed the object's configuration")
 		return
 	}
 	// the caller keeps mutating its own object
 	s.cfg.ChannelPool.MinSize++
-	s.call("GCPConfig", 0, func() { again = s.gme.GCPConfig() })
+	c = s.call("GCPConfig", 0, func() {
+		if again := s.gme.GCPConfig(); !proto.Equal(again, s.cfgSnap) {
+			verdict = "aliased-caller"
+		}
+	})
 	s.k.Quiesce()
 	s.cfg.ChannelPool.MinSize--
-	if !proto.Equal(again, s.cfgSnap) {
+	if s.panicked(c, "GCPConfig") {
+		return
+	}
+	if verdict == "aliased-caller" {
 		s.vio("C17", "gcpconfig-aliased", "caller", "mutating the caller's configuration object changed GCPConfig()")
 	}
 	s.res.Count("fault:caller_mutates_config", 1)
@@ -1031,6 +1052,7 @@ func (s *sim) hint() {
 	s.k.KeyHint = kern.MixKey(id, s.hintN)
 }
 
+//go:norace
 func runtimeStack(b []byte) int { return runtime.Stack(b, false) }
 
 // ---------------------------------------------------------------- engine
